@@ -85,12 +85,10 @@ pub fn run(args: &Args) -> Report {
         rep.note("no honest proof exists for this build; nothing to tamper with");
         return rep;
     }
-    if !thorough {
-        // one proof per build, chosen by seed
-        let k = (base_rng.fork("pick").next() % honest.len() as u64) as usize;
-        honest = vec![honest.swap_remove(k)];
-    }
-    let per_class_quick = args.u64("perclass", 30) as usize;
+    // quick: every honest proof of the build (all layouts), a few sampled positions per class each;
+    // thorough: every position of every proof
+    let _ = &mut honest;
+    let per_class_quick = args.u64("perclass", 5) as usize;
     let k_values = if thorough { 3 } else { 2 };
     let mut idx: u64 = 0;
     for h in &honest {
